@@ -33,7 +33,8 @@ import (
 //	c02.rep <n> <token>…   the same schedule n times (a select with two ready cases picks at random); the outcomes must agree
 //	c02.multi <c20.rq tokens>   split requests (MGET/MSET/DEL) whose children are answered, redirected, failed or lost: -> once | twice … | unanswered …
 //	c02.stress <seed> <senders> <requests per sender> <mode>   unforced run with random delays at the pause points;
-//	   mode c: the backend closes at a random moment, k: Stop at a random moment, x: unsolicited reply then Stop
+//	   mode c: the backend closes at a random moment, k: Stop at a random moment, x: unsolicited reply then Stop,
+//	   f: the backend never answers, Stop once both queues are full and the senders wait for room
 //	   -> lost=<n> twice=<n> stop=<ok|hangs>
 type c02 struct{ iso *hx.Isolated }
 type c02child struct{}
@@ -45,7 +46,8 @@ func init() {
 
 func (*c02) Rule() string {
 	return "forced interleavings of senders, the backend writer and reader, Start's drain and Stop on one real backend connection (each of the four pause points armed and released around connection loss, backend close, " +
-		"unsolicited replies and Stop; 1..6 requests), plus unforced stress runs (4..16 senders x 50..400 requests, random delays at the pause points, connection closed or stopped at a random moment). " +
+		"unsolicited replies and Stop; 1..6 requests), plus unforced stress runs (4..16 senders x 50..400 requests, random delays at the pause points, connection closed or stopped at a random moment; " +
+		"a backend that never answers with Stop once both 1024-entry queues are full and the senders wait for room). " +
 		"Non-trivial = a park is armed or a fault happens while requests are outstanding; distinct by op line"
 }
 func (c *c02) Exec(op string) string { return c.iso.Exec(op) }
@@ -318,6 +320,9 @@ func (c02child) stress(seed int64, senders, per int, mode string) string {
 			n := e.recvd - e.answd
 			e.answd += n
 			e.mu.Unlock()
+			if mode == "f" {
+				continue // a backend that reads and never answers: both queues of the connection fill up
+			}
 			if _, err := e.be.Write(bytes.Repeat([]byte("$1\r\nv\r\n"), n)); err != nil {
 				return
 			}
@@ -326,6 +331,10 @@ func (c02child) stress(seed int64, senders, per int, mode string) string {
 	rng := rand.New(rand.NewSource(seed))
 	total := senders * per
 	faultAfter := int64(rng.Intn(total))
+	if mode == "f" {
+		// Stop while the senders sit on a full queue (1024 pending behind 1024 sent and unanswered): a little after the 2000th Send
+		faultAfter = 2000
+	}
 	var sent int64
 	fault := make(chan struct{})
 	var faultOnce sync.Once
@@ -348,6 +357,9 @@ func (c02child) stress(seed int64, senders, per int, mode string) string {
 	stopDone := make(chan struct{})
 	go func() {
 		<-fault
+		if mode == "f" {
+			time.Sleep(time.Duration(20+rng.Intn(30)) * time.Millisecond)
+		}
 		switch mode {
 		case "c":
 			e.be.Close()
@@ -518,7 +530,7 @@ func (c c02child) Exec(op string) string {
 		seed, e1 := strconv.ParseInt(f[1], 10, 64)
 		senders, e2 := strconv.Atoi(f[2])
 		per, e3 := strconv.Atoi(f[3])
-		if e1 != nil || e2 != nil || e3 != nil || senders < 1 || senders > 64 || per < 1 || per > 5000 || (f[4] != "c" && f[4] != "k" && f[4] != "x") {
+		if e1 != nil || e2 != nil || e3 != nil || senders < 1 || senders > 64 || per < 1 || per > 5000 || (f[4] != "c" && f[4] != "k" && f[4] != "x" && f[4] != "f") {
 			return "bad-op"
 		}
 		return c.stress(seed, senders, per, f[4])
@@ -604,6 +616,10 @@ func (c *c02) Gen(r *hx.Run) {
 			ps = append(ps, []string{"o", "e", "f", "mo", "me", "n", "ao", "Ae", "x", "c", "mf"}[rng.Intn(11)])
 		}
 		r.Do(fmt.Sprintf("c02.multi %s:%s", "MWD"[rng.Intn(3):][:1], strings.Join(ps, "/")), true, "multi")
+	}
+	// Stop while senders wait for room on a full queue
+	for i := 0; i < r.N(6, 100); i++ {
+		r.Do(fmt.Sprintf("c02.stress %d %d %d f", rng.Int63n(1<<40), 8+rng.Intn(9), 320+rng.Intn(81)), true, "stress-full")
 	}
 	for i := 0; i < r.N(12, 300); i++ {
 		mode := "ckx"[rng.Intn(3):][:1]
